@@ -395,18 +395,18 @@ Proof.
     pose proof (wf_kids_all _ _ Hw0 h Hh) as Hq. apply andb_true_iff in Hq. apply H; tauto.
 Qed.
 (* four output dimensions, extended flavour with SRID: the cycle is the identity up to the two documented exceptions *)
-Theorem wkb_identity c g rest : wf g = true -> regular g = true ->
+Theorem wkb_identity c g rest : wf g = true -> (depth g <= MAX_DEPTH)%nat -> regular g = true ->
   c_dim c = D4 -> c_fl c = Ext -> c_srid c = true ->
   wkb_read (wkb_write c g ++ rest) = Ok (ideal_shape g, rest).
 Proof.
-  intros Hwf Hr Hd Hf Hs. rewrite wkb_roundtrip by exact Hwf. rewrite expect_regular by assumption.
+  intros Hwf Hdp Hr Hd Hf Hs. rewrite wkb_roundtrip by assumption. rewrite expect_regular by assumption.
   unfold ideal. rewrite Hd, Hf, Hs. cbn [andb is_ext]. now rewrite drop_dims_D4.
 Qed.
 (* lower output dimension / no SRID: the input with exactly the excess ordinates dropped and the SRID cleared *)
-Theorem wkb_drop c g rest : wf g = true -> regular g = true ->
+Theorem wkb_drop c g rest : wf g = true -> (depth g <= MAX_DEPTH)%nat -> regular g = true ->
   wkb_read (wkb_write c g ++ rest)
   = Ok (ideal_shape (drop_dims (c_dim c) (if c_srid c && is_ext (c_fl c) then g else clear_srid g)), rest).
-Proof. intros Hwf Hr. rewrite wkb_roundtrip by exact Hwf. now rewrite expect_regular. Qed.
+Proof. intros Hwf Hdp Hr. rewrite wkb_roundtrip by assumption. now rewrite expect_regular. Qed.
 
 (* ---------------------------------------------------------------- witnesses: where the literal property text fails (known_findings.json classes) *)
 Definition w1 : N := 4607182418800017408.   (* 1.0 *)
@@ -433,3 +433,10 @@ Theorem own_output_rejected_witness :
   let g := GCompound 0 [(SLine, 0, empty_seq false false)] in
   wf g = false /\ wkb_read (wkb_write cfg4 g) = Err EMinMem.
 Proof. cbv zeta. split; vm_compute; reflexivity. Qed.
+
+(* nesting limit: the writer has none, the reader refuses more than MAX_DEPTH levels (a deliberate limit: commit "readers limit the nesting depth") *)
+Fixpoint nest (n: nat) : geom := match n with O => GPoint 0 (empty_seq false false) | S k => GColl CGC 0 [nest k] end.
+Theorem nesting_limit_witness :
+  wf (nest 200) = true /\ depth (nest 200) = 201%nat /\ wkb_read (wkb_write cfg4 (nest 200)) = Err EFuel /\
+  wkb_read (wkb_write cfg4 (nest 199)) = Ok (nest 199, []).
+Proof. repeat split; vm_compute; reflexivity. Qed.
